@@ -4,6 +4,7 @@ the tree (under /dev/shm, removed afterwards) and require the property's check
 to report a VIOLATION within a small budget.
 
   canary.py list
+  canary.py verify                 (all patterns still apply to the tree)
   canary.py run [ID-or-prefix ...] [--budget S] [--runs N] [--keep]
   canary.py patch <file.diff> <PROP> [--budget S]     (apply a unified diff instead)
 
@@ -82,6 +83,18 @@ def main():
         for c in load_canaries():
             print(c["id"], c["prop"], "-", c["what"])
         return 0
+    if a.cmd == "verify":
+        # every canary's patterns must still occur in the current tree (they go stale when a fix: commit rewrites the spot)
+        bad = 0
+        cans = load_canaries()
+        for c in cans:
+            for ed in c["edits"]:
+                n = open(os.path.join(a.repo, ed["file"])).read().count(ed["old"])
+                if n != ed.get("count", 1):
+                    print(f"STALE {c['id']}: pattern occurs {n} times in {ed['file']}")
+                    bad += 1
+        print(f"{len(cans)} canaries, {bad} stale edits")
+        return 1 if bad else 0
     if a.cmd == "patch":
         diff, prop = a.ids[0], a.ids[1]
         root = make_copy(a.repo)
